@@ -27,7 +27,9 @@ RULE = ("scenarios: file accessor (deep/flat x gzip/no-gzip) with 2 chunks "
         "compressed_segmentation; sharded accessor (in-memory / on-disk "
         "buffers x raw/gzip) with one shard pre-written, operation in "
         "{write + close a new shard, rewrite + close the existing shard, "
-        "read a chunk}, plus two scenarios in which the temporary buffer "
+        "read a chunk, rewrite while surviving failed stores (the caller "
+        "catches the documented error classes, stores the remaining chunks "
+        "and closes)}, plus scenarios in which the temporary buffer "
         "files of the on-disk strategy are points as well. Points = every system call under the dataset root "
         "issued by the operation; menu per call kind: errno {ENOSPC, EACCES, "
         "EIO, EROFS | EIO, EACCES, ENOENT}, short write of 1 and n-1 bytes "
@@ -99,9 +101,12 @@ def sharded_scenarios():
                 out.append({"kind": "sharded", "strategy": strategy,
                             "enc": enc, "op": op})
     # the temp buffers of the on-disk strategy are I/O of store/close too
-    for op in ("write-new-shard", "rewrite-shard"):
+    for op in ("write-new-shard", "rewrite-shard",
+               "rewrite-shard-keep-going"):
         out.append({"kind": "sharded", "strategy": "on disk", "enc": "raw",
                     "op": op, "watch_tmp": True})
+    out.append({"kind": "sharded", "strategy": "on disk", "enc": "gzip",
+                "op": "rewrite-shard-keep-going"})
     return out
 
 
@@ -239,6 +244,21 @@ def operation(d, scn, model):
         _LAST["stores_done"] = True
         with sandbox.quiet():
             return _close(pio.accessor)
+    if op == "rewrite-shard-keep-going":
+        # a caller that survives failed stores (catches the documented
+        # error classes), stores the remaining chunks and then closes
+        from neuroglancer_scripts.accessor import DataAccessError
+        failed = 0
+        for cc, shard in sh_chunks()[::-1]:
+            if shard == 0:
+                model[cc].append(sh_arr(cc, 2))
+                try:
+                    pio.write_chunk(sh_arr(cc, 2), KEY, cc)
+                except (DataAccessError, OSError):
+                    failed += 1
+        _LAST["stores_done"] = not failed
+        with sandbox.quiet():
+            return _close(pio.accessor)
     if op == "read":
         cc = sh_chunks()[1][0]
         return pio.read_chunk(KEY, cc).tobytes()
@@ -261,7 +281,7 @@ def target_paths(scn):
     op = scn["op"]
     if scn["kind"] == "sharded":
         return {"write-new-shard": ["1.shard"], "rewrite-shard": ["0.shard"],
-                "read": []}[op]
+                "rewrite-shard-keep-going": ["0.shard"], "read": []}[op]
     if op == "write-new":
         return ["0-2_2-4_0-2", "0-2/2-4/0-2"]
     if op in ("overwrite", "overwrite-other-compression"):
